@@ -10,6 +10,12 @@ ASSUME_DECL = [
 ]
 
 
+def msg_class(m):
+    """diagnostic text with numbers and identifiers in quotes removed: used only to count distinct outcome classes"""
+    import re
+    return re.sub(r"\d+|`[^`]*`|'[^']*'", "#", m)[:80]
+
+
 def decl_replay(text, expect_decl, probes=None, expect_probes=None, emit="metadata", flags=None, prelude=None):
     r = {"engine": "declmc", "text": text, "probes": [{"key": k, "text": t} for k, t in (probes or [])],
          "expect": {"decl": expect_decl, "probes": expect_probes or {}}, "emit": emit, "flags": flags or []}
@@ -24,6 +30,7 @@ def c09(tier):
     decls = S.c09_declarations(tier)
     configs = [("dev", False)] + ([("release-host", True)] if tier == 'thorough' else [])
     nvalid = 0
+    outcomes = set()
     for cname, rel in configs:
         arts = D.carrier(host_release=rel)
         items = [D.Item(j, S.emit_field_decl(d)) for j, d in enumerate(decls)]
@@ -39,6 +46,7 @@ def c09(tier):
         for j, d in enumerate(decls):
             v = S.decl_valid(d)
             accepted = j not in errs
+            outcomes.add((v, accepted, None if accepted else msg_class(errs[j][0][1])))
             acc += accepted
             rej += (not accepted)
             text = S.emit_field_decl(d)
@@ -75,7 +83,7 @@ def c09(tier):
             rejs = [j for j in range(len(decls)) if j in errs]
             for j in rejs[:1] + rejs[len(rejs) // 2: len(rejs) // 2 + 2]:
                 chk.sample({"declaration": S.emit_field_decl(decls[j]), "model": "invalid", "rustc": f"rejected: {errs[j][0][1][:100]}"})
-    chk.distinct_outcomes = 2
+    chk.distinct_outcomes = len(outcomes)     # distinct (model verdict, rustc verdict, diagnostic class) triples observed
     if nvalid == 0 or nvalid == len(decls):
         core.vacuous("C09: all declarations on one side of the validity rule")
     chk.bounds.append("one-field declarations: full product for bases " + ("u3..u8" if tier == 'quick' else "u2..u12") +
@@ -106,9 +114,11 @@ def c10(tier):
     chk.programs += len(decls)
     acc = 0
     valid_acc = []
+    outcomes = set()
     for j, d in enumerate(decls):
         v = S.enum_decl_valid(d)
         accepted = j not in errs
+        outcomes.add((v, accepted, None if accepted else msg_class(errs[j][0][1])))
         acc += accepted
         text = S.emit_enum_decl(d)
         if v and not accepted:
@@ -139,7 +149,7 @@ def c10(tier):
     rejs = [j for j in range(len(decls)) if j in errs]
     for j in rejs[:1] + rejs[len(rejs) // 2: len(rejs) // 2 + 2]:
         chk.sample({"declaration": S.emit_enum_decl(decls[j]), "model": "invalid", "rustc": f"rejected: {errs[j][0][1][:100]}"})
-    chk.distinct_outcomes = 2
+    chk.distinct_outcomes = len(outcomes)
     if not valid_acc or acc == len(decls):
         core.vacuous("C10: all declarations on one side of the rule")
     chk.bounds.append("N in {1,2,3}" + (" and 4 (sizes <=3, >=15)" if tier == 'thorough' else "") + ": every discriminant set drawn from [0, 2^N+1] of every size 1..2^N+1, in every declaration order for N<=2 and 4-6 orders for N=3, "
@@ -185,6 +195,7 @@ def c14(tier):
     nexpect_fail = 0
     off_cnt = 0
     codes = {}
+    outcomes = set()
     for j, (s, offered, probes) in enumerate(meta):
         text = S.bld_struct_text(s)
         off_cnt += offered
@@ -203,6 +214,7 @@ def c14(tier):
             else:
                 expect_ok = S.chain_automaton(s, sq)
             nexpect_fail += (not expect_ok)
+            outcomes.add((k.rstrip('0123456789'), offered, expect_ok, failed))
             bad = None
             if expect_ok and failed:
                 bad = f"must compile but is rejected ({e[0]})"
@@ -228,7 +240,7 @@ def c14(tier):
         e["transitions"] += len(probes)
         e["fields"] += len(s.fields)
     chk.per_family = per
-    chk.distinct_outcomes = 2
+    chk.distinct_outcomes = len(outcomes)
     for j in (0, len(meta) // 3, 2 * len(meta) // 3, len(meta) - 1, len(meta) - 200):
         s, offered, probes = meta[j]
         k, sq = probes[min(2, len(probes) - 1)]
@@ -276,6 +288,7 @@ def c17(tier):
         raise B.MachineryError(f"C17: diagnostics that could not be attributed: {unatt[:3]}")
     nprobes = nfail = 0
     codes = {}
+    outcomes = set()
     for j, (kname, s, probes) in enumerate(meta):
         text = R.struct_decl(s)
         if j in errs:
@@ -286,6 +299,7 @@ def c17(tier):
             nprobes += 1
             nfail += (not expect_ok)
             e = errs.get((j, k))
+            outcomes.add((kname, f0.access, k.rstrip('0123456789'), bool(e)))
             bad = None
             if expect_ok and e:
                 bad = f"must exist but does not compile ({e[0]})"
@@ -305,7 +319,7 @@ def c17(tier):
     chk.programs += len(cases) + nprobes
     chk.transitions += nprobes + len(cases)
     chk.validated += nprobes
-    chk.distinct_outcomes = 2
+    chk.distinct_outcomes = len(outcomes)     # distinct (field kind, access, probe kind, rustc verdict) tuples observed
     chk.extra.update({"structs": len(cases), "probes": nprobes, "probes_expected_to_fail": nfail, "rejection_error_codes": codes})
     for j in (0, len(meta) // 2, len(meta) - 3):
         kname, s, probes = meta[j]
